@@ -86,7 +86,12 @@ def run(ctx):
                 "filter_map", "find", "find_map", "retain", "pop", "swap_remove", "split_off", "first", "min", "max")
     for pname, root in paths.items():
         hits = []
-        for g in P.family(root):
+        # the path itself, its closures, and the helpers it calls inside the engine's database module
+        scope = []
+        for fid in P.reach([root], edge_filter=lambda x, y: y.startswith("grafeo_engine::database::") and
+                           not y.startswith("grafeo_engine::database::GrafeoDB::") or P.fns[y].kind == "closure" and (P.fns[y].parent or "").startswith("grafeo_engine::database::")):
+            scope.append(P.fns[fid])
+        for g in scope:
             for bi, t in g.calls():
                 c = callee_name(t)
                 if c.split("::")[-1] in DROPPING and ("iter" in c or "alloc::vec" in c or "slice" in c or "collections" in c):
